@@ -39,4 +39,29 @@ def holds (tbl : Table) (init parentInit siblingInit : Option Nat) (vs : List Ke
   o.activeAfter == (List.range vs.length).map (fun i => expectedActive tbl init (vs.take (i + 1))) &&
   o.parentActive == parentInit && o.siblingActive == siblingInit
 
+/-! ### histories over a class hierarchy -/
+
+/-- one selection, stated with the order-free maximum -/
+def specSelect (cs : Classes) (fuel c : Nat) (v : Key) : Classes :=
+  let tbl := cs.versions fuel c
+  match greatestBelow (tbl.map (·.1)) v with
+  | none => cs
+  | some k =>
+    match tbl.get k with
+    | some lst => { cs with ownActive := fun x => if x = c then some lst else cs.ownActive x }
+    | none => cs
+
+/-- the active lists of the observed classes after each selection of a history
+`[(class, version)…]` -/
+def specTrace (sel : Classes → Nat → Nat → Key → Classes) (fuel : Nat) (watch : List Nat) :
+    Classes → List (Nat × Key) → List (List (Option Nat))
+  | _, [] => []
+  | cs, (c, v) :: ops =>
+    let cs' := sel cs fuel c v
+    watch.map (cs'.active fuel) :: specTrace sel fuel watch cs' ops
+
+def holdsTrace (cs : Classes) (fuel : Nat) (watch : List Nat) (ops : List (Nat × Key))
+    (obs : List (List (Option Nat))) : Bool :=
+  obs == specTrace specSelect fuel watch cs ops
+
 end Spec.C19
